@@ -366,3 +366,45 @@ def isfinite(x):
     if isinstance(x, np.ndarray) and x.dtype == object:
         return np.ones(x.shape, dtype=bool)
     return np.isfinite(x)
+
+
+_TERM = {"exp": exp_term, "log": None, "sqrt": sqrt_term, "abs": abs_term, "erf": erf_term, "tanh": tanh_term}
+
+
+def renorm(e, memo=None):
+    """re-normalise a term after substitution: rebuild transcendental atoms through their
+    constructors (so e.g. exp(-(0/x)) becomes 1) and drop 0/x"""
+    memo = {} if memo is None else memo
+    i = e.get_id()
+    if i in memo:
+        return memo[i][1]
+    r = _renorm(e, memo)
+    memo[i] = (e, r)
+    return r
+
+
+def _renorm(e, memo):
+    if not z3.is_app(e) or e.num_args() == 0:
+        return e
+    ch = [renorm(c, memo) for c in e.children()]
+    k = e.decl().kind()
+    if k == z3.Z3_OP_DIV and _is_zero(z3.simplify(ch[0])):
+        return z3.RealVal(0)
+    if k == z3.Z3_OP_UNINTERPRETED:
+        n = e.decl().name()
+        if n == "log":
+            return log_term(ch[0])
+        if n in _TERM:
+            return _TERM[n](ch[0])
+        return e.decl()(*ch)
+    if k == z3.Z3_OP_ADD:
+        return z3.Sum(ch)
+    if k == z3.Z3_OP_MUL:
+        r = ch[0]
+        for c in ch[1:]:
+            r = r * c
+        return r
+    try:
+        return e.decl()(*ch)
+    except z3.Z3Exception:
+        return z3.substitute(e, *[(a, b) for a, b in zip(e.children(), ch) if not a.eq(b)])
